@@ -318,6 +318,21 @@ func c14State(c *core.Ctx, w *World, when string) {
 				}
 			}
 			uncovered = append(uncovered, (uint64(2)<<f.H)+1)
+			// positions the proof is about without their being targets: the ancestors it lets one
+			// compute and the siblings it carries as proof hashes (added after seeded change C14h,
+			// which answers for a wanted ancestor instead of refusing)
+			if len(pa.Targets) > 0 {
+				st := cloneU64(pa.Targets)
+				sort.Slice(st, func(i, j int) bool { return st[i] < st[j] })
+				pp, comp := u.ProofPositions(st, f.N, f.H)
+				n := 0
+				for _, q := range append(append([]uint64(nil), comp...), pp...) {
+					if !inA[q] && n < 6 {
+						uncovered = append(uncovered, q)
+						n++
+					}
+				}
+			}
 			for _, uc := range uncovered {
 				wants := []uint64{uc}
 				if len(pa.Targets) > 0 && c.Rng.Intn(2) == 0 {
